@@ -698,6 +698,26 @@ impl ConvContext {
                             }
                         }
                     }
+                } else if let Some(Statement::IfReset(ifreset)) = x.statements.first() {
+                    // Reset values that are not plain whole-variable literals (a param,
+                    // a constant expression, `mem[i] = c`, `r[3:0] = c`): lower the reset
+                    // branch like any other statement list and read the constants off the
+                    // resulting nets. Bits it leaves alone, or drives with something that
+                    // does not fold to a constant, keep the default reset value.
+                    let mut reset_current = init_current_ff(self, x);
+                    process_statements(self, &ifreset.true_side, &mut reset_current)?;
+                    for (vid, nets) in reset_current {
+                        let Some(pre) = self.ff_allocation.get(&vid) else {
+                            continue;
+                        };
+                        for (bit, ff_idx) in pre.ff_indices.iter().enumerate() {
+                            if let Some(&n) = nets.get(bit)
+                                && let NetDriver::Const(v) = self.nets[n as usize].driver
+                            {
+                                self.ffs[*ff_idx].reset_value = v;
+                            }
+                        }
+                    }
                 }
                 process_statements(self, &main_stmts, &mut current)?;
                 for (vid, nets) in current {
